@@ -135,7 +135,7 @@ def run_step(ctx, cfg, tag="", cuts=True, stub_poisson=False, init=None, trivial
     sim.time = t0
     if U is None:
         U = [ctx.scalar(f"{st}U{a}", default=0.3 * (a + 1)) for a in range(dim)] if cfg.get("free_stream") else [0.0] * dim
-    out = dict(sim=sim, dt=dt, nu=nu, rho=rho, t0=t0, U=U, classified=classified, dx=float(sim.dx), dim=dim)
+    out = dict(sim=sim, dt=dt, nu=nu, rho=rho, t0=t0, U=U, classified=classified, dx=sim.dx, dim=dim)
     wname = "primary_field" if cfg["kind"] == "passive" else "vorticity_field"
     if init is not None:
         init(sim)
